@@ -588,7 +588,12 @@ func main() {
 	shards := flag.Int("shards", runtime.NumCPU(), "parallel model processes")
 	tmo := flag.Int("timeout_ms", 5000, "per-evaluation watchdog")
 	tables := flag.String("tables", "", "regenerate coq/Gen/*.v into this directory and exit")
+	onehist := flag.String("onehistory", "", "run one registry history in this process and exit")
 	flag.Parse()
+	if *onehist != "" {
+		runOneHistory(*onehist)
+		return
+	}
 	if *tables != "" {
 		if err := writeTables(*tables); err != nil {
 			fmt.Fprintln(os.Stderr, err)
@@ -627,6 +632,16 @@ func main() {
 			}
 		case "history":
 			r = runHistoryCase(c)
+		case "ext":
+			r, line = runExtCase(c)
+			if line != "" {
+				plines[c.ID] = line
+			}
+		case "reghistory":
+			r, line = runHistoryProcess(os.Args[0], c)
+			if line != "" {
+				plines[c.ID] = line
+			}
 		default:
 			r, line = runEvalCase(c)
 			if line != "" {
